@@ -17,7 +17,7 @@ from ..kinds import has_call, reach
 from ..model import AnalysisError, unparse
 from ..report import RuleResult
 from ._c07_flow import ChildMasks, MaskedCells, ShrinkGuard
-from ._c07_util import (KEEP_ORDER, KEEP_SET, call_arg, dependence_leaves, derived_names, desugar_setattr, enclosing_ifs, falls_off, fname, fold_const, is_setattr,
+from ._c07_util import (KEEP_ORDER, KEEP_SET, call_arg, dependence_leaves, derived_names, desugar_setattr, enclosing_ifs, expand_member_calls, falls_off, fname, fold_const, inline_local_closures, is_setattr,
                         literal_resolver, name_defs, reach3, real_defs, tv3, unfold_filtered_loops, unfold_generator_loops, unknown_leaves, xp, xt)
 
 ASSOC = {"vertices": "VERTEX", "cells": "CELL"}
@@ -135,6 +135,9 @@ def _pair_children(ctx, res, rcv0, ind, assoc):
     rcv = ctx.view(rcv0)
     # the children may be chosen by a generator method / a filtered comprehension: read the loop they stand for
     node = unfold_filtered_loops(unfold_generator_loops(rcv, ctx.view, p))
+    # the per-child step may live in the data class (`child.remove_values(indices)`): read the one body every child runs
+    kids = {lp.target.id for lp in ast.walk(node) if isinstance(lp, ast.For) and isinstance(lp.target, ast.Name) and xt(lp.iter, node).endswith(".children")}
+    node = expand_member_calls(replace(rcv, node=node), ctx.view, p, kids, p.cls("Data"))
     g = CFG(node)
     defs = name_defs(node)
     _, same_indices = derived_names(node, ind, KEEP_SET)
@@ -965,7 +968,11 @@ def rule_childmask(ctx) -> RuleResult:
         names = fn0.params + [a.arg for a in fn0.node.args.kwonlyargs]
         if "mask" not in names or "cell_mask" not in names:
             continue
-        cm = ChildMasks(ctx.view(fn0), data_bases)
+        # the loop may sit in a shared helper fed with a generator of the children and a local closure doing the copy
+        v = ctx.view(fn0)
+        v = replace(v, node=inline_local_closures(v.node))
+        v = replace(v, node=unfold_filtered_loops(unfold_generator_loops(v, ctx.view, p)))
+        cm = ChildMasks(v, data_bases)
         for call, line, assoc, got, allowed in cm.run():
             ok = got <= allowed
             kind = {"VERTEX": "VERTEX", "CELL": "CELL", "OTHER": "other"}[assoc]
